@@ -315,3 +315,109 @@ Qed.
 Theorem unquoted_value_refuted :
   exists v, options_to_items ([97; 108; 116; 58; 32] ++ v) <> RdOk [([97; 108; 116], v)].
 Proof. exists [97; 32; 35; 98]. vm_compute. discriminate. Qed.
+
+(* ---------- the right-stripped block of an admonition: the last line may be "key:" ---------- *)
+
+Lemma read_items_step k v B L :
+  wf_key k = true ->
+  (B = [] \/ exists d r, B = d :: r /\ key_char d = true) ->
+  (forall f', (length B < f')%nat -> read_items f' B = RdOk L) ->
+  forall f, Nat.lt (length (k ++ 58 :: 32 :: option_value v ++ match B with [] => [] | _ => 10 :: B end)) f ->
+  read_items f (k ++ 58 :: 32 :: option_value v ++ match B with [] => [] | _ => 10 :: B end)
+  = RdOk ((k, value_or_empty v) :: L).
+Proof.
+  intros Hk HB HL f Hf.
+  destruct (wf_key_head k Hk) as [d [kr [Ek Hd]]].
+  unfold wf_key in Hk. apply andb_true_iff in Hk as [_ Hkc].
+  set (tail := match B with [] => [] | _ => 10 :: B end) in *.
+  assert (Ht : tail_ok tail).
+  { unfold tail. destruct HB as [->|[d' [r' [-> Hd']]]]; [left; reflexivity|]. right. eauto. }
+  destruct f as [|f]; [lia|]. cbn [read_items].
+  assert (Ene : k ++ 58 :: 32 :: option_value v ++ tail <> []) by (subst k; discriminate).
+  destruct (k ++ 58 :: 32 :: option_value v ++ tail) as [|x xs] eqn:Es; [congruence|]. rewrite <- Es.
+  rewrite (read_key_ok k [] _ Hkc) by (left; subst k; discriminate). cbn [rev app].
+  rewrite (read_value_ok v tail Ht). rewrite (line_end_ok tail Ht).
+  match goal with |- match read_items f ?T with _ => _ end = _ => assert (Hrest : read_items f T = RdOk L) end.
+  { assert (Hl : length (k ++ 58 :: 32 :: option_value v ++ tail) = S (length xs)) by (rewrite Es; reflexivity).
+    rewrite !app_length in Hl. cbn [length] in Hl. rewrite app_length in Hl. cbn [length] in Hf.
+    unfold tail in *. unfold Nat.lt in *. destruct B as [|b0 B0].
+    - apply HL. simpl in *. lia.
+    - apply HL. cbn [length] in *. lia. }
+  rewrite Hrest. reflexivity.
+Qed.
+
+(* last line: "key:" when the value is empty *)
+Definition yaml_line_last (kv : str * option str) : str :=
+  match value_or_empty (snd kv) with [] => fst kv ++ [58] | _ => yaml_line kv end.
+
+Fixpoint yaml_block_r (kvs : attrs) : str :=
+  match kvs with
+  | [] => []
+  | [kv] => yaml_line_last kv
+  | kv :: rest => yaml_line kv ++ [10] ++ yaml_block_r rest
+  end.
+
+Lemma read_key_end : forall k acc, forallb key_char k = true -> (k <> [] \/ acc <> []) ->
+  read_key (k ++ [58]) acc = RdOk (rev acc ++ k, []).
+Proof.
+  induction k as [|c k IH]; intros acc Hk Hne; simpl.
+  - destruct acc as [|a acc]; [destruct Hne; congruence|]. rewrite app_nil_r. reflexivity.
+  - simpl in Hk. apply andb_true_iff in Hk as [Hc Hk].
+    assert (E : N.eqb c 58 = false).
+    { destruct (N.eqb c 58) eqn:E; auto. apply N.eqb_eq in E. subst c. vm_compute in Hc. discriminate. }
+    rewrite E, Hc. rewrite IH; auto.
+    + simpl. rewrite <- app_assoc. reflexivity.
+    + right. discriminate.
+Qed.
+
+Lemma yaml_block_r_head k v rest : wf_key k = true ->
+  exists d r, yaml_block_r ((k, v) :: rest) = d :: r /\ key_char d = true.
+Proof.
+  intro Hk. destruct (wf_key_head k Hk) as [d [kr [-> Hd]]]. destruct rest as [|kv' rest'].
+  - cbn [yaml_block_r]. unfold yaml_line_last, yaml_line. cbn [fst snd].
+    destruct (value_or_empty v); cbn [app]; eauto.
+  - cbn [yaml_block_r]. unfold yaml_line. cbn [fst snd app]. eauto.
+Qed.
+
+Theorem values_carried_r : forall (kvs : attrs),
+  Forall (fun kv => wf_key (fst kv) = true) kvs ->
+  forall f, (length (yaml_block_r kvs) < f)%nat ->
+  read_items f (yaml_block_r kvs) = RdOk (map (fun kv => (fst kv, value_or_empty (snd kv))) kvs).
+Proof.
+  induction kvs as [|[k v] rest IH]; intros F f Hf.
+  - destruct f; [simpl in Hf; lia|]. reflexivity.
+  - inversion F as [|? ? Hk Fr]; subst. cbn [fst] in Hk. destruct rest as [|kv' rest'].
+    + cbn [yaml_block_r map] in *. unfold yaml_line_last in *. cbn [fst snd] in *.
+      destruct (value_or_empty v) as [|c0 r0] eqn:Ev.
+      * (* "key:" at the end *)
+        destruct f as [|f]; [lia|]. cbn [read_items].
+        destruct (wf_key_head k Hk) as [d [kr [Ek Hd]]].
+        pose proof Hk as Hk'. unfold wf_key in Hk'. apply andb_true_iff in Hk' as [_ Hkc].
+        destruct (k ++ [58]) as [|x xs] eqn:Es; [subst k; discriminate|]. rewrite <- Es.
+        rewrite (read_key_end k [] Hkc) by (left; subst k; discriminate). cbn [rev app].
+        unfold read_value. cbn [skip_spaces line_end]. destruct f; [subst k; simpl in Hf; lia|]. reflexivity.
+      * assert (E : yaml_line (k, v) = k ++ 58 :: 32 :: option_value v ++ match @nil N with [] => [] | _ => 10 :: [] end).
+        { unfold yaml_line. cbn [fst snd]. rewrite app_nil_r. reflexivity. }
+        rewrite E in *. rewrite (read_items_step k v [] [] Hk (or_introl eq_refl)).
+        -- rewrite Ev. reflexivity.
+        -- intros f' Hf'. destruct f'; [simpl in Hf'; lia|]. reflexivity.
+        -- exact Hf.
+    + inversion Fr as [|? ? Hk2 _]; subst. destruct kv' as [k2 v2]. cbn [fst] in Hk2.
+      destruct (yaml_block_r_head k2 v2 rest' Hk2) as [d [r [Eh Hd]]].
+      assert (E : yaml_block_r ((k, v) :: (k2, v2) :: rest')
+                  = k ++ 58 :: 32 :: option_value v ++
+                    match yaml_block_r ((k2, v2) :: rest') with [] => [] | _ => 10 :: yaml_block_r ((k2, v2) :: rest') end).
+      { rewrite Eh. change (yaml_block_r ((k, v) :: (k2, v2) :: rest'))
+          with (yaml_line (k, v) ++ [10] ++ yaml_block_r ((k2, v2) :: rest')).
+        rewrite Eh. unfold yaml_line. cbn [fst snd]. rewrite <- !app_assoc. reflexivity. }
+      rewrite E in *. cbn [map]. apply read_items_step.
+      * exact Hk.
+      * right. eauto.
+      * intros f' Hf'. apply IH; auto.
+      * exact Hf.
+Qed.
+
+Theorem values_carried_rstripped (kvs : attrs) :
+  Forall (fun kv => wf_key (fst kv) = true) kvs ->
+  options_to_items (yaml_block_r kvs) = RdOk (map (fun kv => (fst kv, value_or_empty (snd kv))) kvs).
+Proof. intro F. unfold options_to_items. apply values_carried_r; auto. Qed.
